@@ -122,6 +122,13 @@ def gen_history(rng):
                 ops[-1].append(pre)
                 pair = ['die', h, o2, pre]
                 ops.insert(len(ops) - 1, pair) if rng.random() < 0.5 else ops.append(pair)
+        elif r < 0.27:
+            # two subscriptions of one user generic in a row (their reduced hints share the class and differ in the type arguments only)
+            g = rng.choice(['UBox', 'UOld', 'UPair'])
+            n = 2 if g == 'UPair' else 1
+            items = rng.choice([[['int', 1], ['int', 2]], [['str', 'a'], ['str', 'b']], [['str', 'a'], ['int', 2]]])
+            for _ in range(2):
+                ops.append(['ugen', g, [rng.choice(['int', 'str', 'bytes']) for _ in range(n)], items, rng.choice(['is_bearable', 'die', 'typehint', 'call'])])
         elif r < 0.32:
             ops.append(['die', rng.choice(HINTS), rng.choice(OBJS)])
         elif r < 0.45:
@@ -280,7 +287,7 @@ def run(ctx):
                 ctx.report({'clause': 'decorator_correspondence', 'decorator': tag}, {'case': case, 'observed': o},
                            'beartype\'s memoising decorator and the model (C14/Memo.v) disagree')
     # --- public-API histories against pristine interpreters
-    hn = {'quick': 120, 'thorough': 4000}[ctx.tier]
+    hn = {'quick': 120, 'thorough': 2500}[ctx.tier]
     hist = SCENARIOS + [gen_history(ctx.rng) for _ in range(hn)]
     for lo in range(0, len(hist), 60):
         part = hist[lo:lo + 60]
